@@ -318,6 +318,23 @@ class Inliner:
         elif isinstance(st, (ast.If, ast.While)):
             exprs = []      # calls in conditions are not hoisted (evaluation per iteration / short-circuit)
             for c in [x for x in ast.walk(st.test) if isinstance(x, ast.Call)]:
+                # a new PREDICATE helper (`if C1: return True` ... `return False`, no effects) called with plain arguments is the
+                # boolean expression it computes: substituted in place, evaluation points unchanged
+                f0, is_m0 = self._resolve_func(caller, c)
+                if f0 is not None and f0.qual not in self.known:
+                    pe = predicate_expr(f0.node, is_m0, c)
+                    if pe is not None:
+                        if c is st.test:
+                            st.test = pe
+                        else:
+                            _replace_expr(st.test, c, pe)
+                        ast.fix_missing_locations(st)
+                        for n_ in ast.walk(st.test):
+                            if not hasattr(n_, "_module"):
+                                n_._module = caller.module
+                        self.inlined_sites[f0.qual] = self.inlined_sites.get(f0.qual, 0) + 1
+                        self.predicate_sites = getattr(self, "predicate_sites", 0) + 1
+                        continue
                 self.resolve(caller, c)      # records opaque callers
         pre = []
         for e in exprs:
@@ -419,6 +436,91 @@ class Inliner:
             for n in ast.walk(s):
                 n._module = f.module
         return out, repl
+
+
+def _pure_expr(e):
+    """names, constants, attribute chains, subscripts with such parts, comparisons / boolean operators / not over them, and
+    calls of isinstance/issubclass/type/len on them"""
+    if isinstance(e, (ast.Name, ast.Constant)):
+        return True
+    if isinstance(e, ast.Attribute):
+        return _pure_expr(e.value)
+    if isinstance(e, ast.Subscript):
+        return _pure_expr(e.value) and _pure_expr(e.slice)
+    if isinstance(e, ast.Compare):
+        return _pure_expr(e.left) and all(_pure_expr(c) for c in e.comparators)
+    if isinstance(e, ast.BoolOp):
+        return all(_pure_expr(v) for v in e.values)
+    if isinstance(e, ast.UnaryOp) and isinstance(e.op, ast.Not):
+        return _pure_expr(e.operand)
+    if isinstance(e, ast.Tuple):
+        return all(_pure_expr(v) for v in e.elts)
+    if isinstance(e, ast.Call) and isinstance(e.func, ast.Name) and e.func.id in ("isinstance", "issubclass", "type", "len") and \
+            not e.keywords:
+        return all(_pure_expr(a) for a in e.args)
+    return False
+
+
+def predicate_expr(fn, is_method, call):
+    """the boolean expression a predicate helper computes for this call, or None. Shape: a chain of `if C: return <bool const>`
+    statements ended by `return <bool const or pure expression>`; every C pure; arguments plain names / constants / attributes."""
+    body = [st for st in fn.body if not (isinstance(st, ast.Expr) and isinstance(st.value, ast.Constant))]
+    if not body or fn.decorator_list and not all(isinstance(d, ast.Name) and d.id == "staticmethod" for d in fn.decorator_list):
+        return None
+    a = fn.args
+    if a.vararg or a.kwarg or a.kwonlyargs or a.defaults or call.keywords or any(isinstance(x, ast.Starred) for x in call.args):
+        return None
+    static = any(isinstance(d, ast.Name) and d.id == "staticmethod" for d in fn.decorator_list)
+    params = [x.arg for x in a.posonlyargs + a.args]
+    mapping = {}
+    if is_method and not static:
+        if not params:
+            return None
+        mapping[params[0]] = call.func.value
+        params = params[1:]
+    if len(params) != len(call.args) or not all(_pure_expr(x) and not isinstance(x, (ast.Compare, ast.BoolOp, ast.Call)) for x in call.args):
+        return None
+    mapping.update(dict(zip(params, call.args)))
+    last = body[-1]
+    if not (isinstance(last, ast.Return) and last.value is not None and _pure_expr(last.value)):
+        return None
+    steps = []
+    for st in body[:-1]:
+        if isinstance(st, ast.If) and not st.orelse and len(st.body) == 1 and isinstance(st.body[0], ast.Return) and \
+                isinstance(st.body[0].value, ast.Constant) and isinstance(st.body[0].value.value, bool) and _pure_expr(st.test):
+            steps.append((st.test, st.body[0].value.value))
+        else:
+            return None
+    stored = {x.id for x in ast.walk(fn) if isinstance(x, ast.Name) and isinstance(x.ctx, ast.Store)}
+    if stored:
+        return None
+    expr = A.clone(last.value)
+    if not (isinstance(expr, ast.Constant) and isinstance(expr.value, bool)) and steps:
+        # the value must be a truth value for the chain to fold into and/or without changing what the caller's `if` sees
+        pass
+    for test, val in reversed(steps):
+        t = A.clone(test)
+        if val:
+            expr = t if (isinstance(expr, ast.Constant) and expr.value is False) else ast.BoolOp(op=ast.Or(), values=[t, expr])
+        else:
+            nt = ast.UnaryOp(op=ast.Not(), operand=t)
+            expr = nt if (isinstance(expr, ast.Constant) and expr.value is True) else ast.BoolOp(op=ast.And(), values=[nt, expr])
+    expr = _Subst(mapping).visit(expr)
+    return ast.copy_location(expr, call)
+
+
+def _replace_expr(root, old, new):
+    for n in ast.walk(root):
+        for fld, val in ast.iter_fields(n):
+            if val is old:
+                setattr(n, fld, new)
+                return True
+            if isinstance(val, list):
+                for i, x in enumerate(val):
+                    if x is old:
+                        val[i] = new
+                        return True
+    return False
 
 
 def _contains(outer, inner):
